@@ -231,6 +231,42 @@ func verifyFunctionOpt(P *Program, fn *ssa.Function, props []string, opt func(*E
 			// environment effects (sends, spawns, locking) must be declared with a `ghost` clause
 			e.oblige(s, fn, "assigns", "ghost", token.NoPos, e.c.False)
 		}
+		if ct.ModGhost && (len(ct.Ghost) > 0 || len(ct.GhostKeys) > 0) {
+			// ghost kinds / objects not named in the clause must end as they started
+			want := map[string]bool{}
+			for _, k := range ct.Ghost {
+				want[k] = true
+			}
+			kenv := e.contractEnv(fn, ct, args, entry, entry, entry.brk)
+			for _, it := range ct.GhostKeys {
+				want[e.ghostKeyOf(kenv, it)] = true
+			}
+			for k := range want {
+				if strings.HasPrefix(k, "nsend") {
+					want["nsocksend"] = true
+				}
+			}
+			seen := map[string]bool{}
+			if s.gepoch != entry.gepoch {
+				e.oblige(s, fn, "assigns", "ghost", token.NoPos, e.c.False)
+			}
+			for g := s.ghost; g != nil && g != entry.ghost; g = g.prev {
+				if seen[g.name] {
+					continue
+				}
+				seen[g.name] = true
+				k := ghostKind(g.name)
+				key := g.name
+				if i := strings.IndexByte(key, '#'); i >= 0 {
+					key = key[:i]
+				}
+				if want[k] || want[key] || e.ghostOfFresh(g.name) {
+					continue
+				}
+				hv := e.ghost(entry, g.name, g.val.S)
+				s = e.oblige(s, fn, "assigns", "ghost."+k, token.NoPos, e.c.Eq(g.val, hv))
+			}
+		}
 	}
 	if len(ct.Determines) > 0 {
 		e.determinedCheck(fn, ct, args, entry, outs)
@@ -396,7 +432,15 @@ func (e *Exec) applyContract(fr *Frame, st State, fn *ssa.Function, ct *FuncCont
 	}
 	st = e.havocAbove(st, short)
 	if ct.ModGhost {
-		st = e.havocGhost(st)
+		if len(ct.Ghost) > 0 || len(ct.GhostKeys) > 0 {
+			names := append([]string{}, ct.Ghost...)
+			for _, it := range ct.GhostKeys {
+				names = append(names, e.ghostKeyOf(env, it))
+			}
+			st = e.havocGhostKinds(st, names)
+		} else {
+			st = e.havocGhost(st)
+		}
 	}
 	res := fn.Signature.Results()
 	var ret Val
@@ -473,6 +517,12 @@ func (e *Exec) loopEnv(fr *Frame, st State, b *ssa.BasicBlock, phiVals map[*ssa.
 			env.vars[name] = v
 		}
 	}
+	if fr.root && ct != nil {
+		for _, l := range ct.Lets {
+			env.where = l.Line
+			env.vars[l.Label] = env.eval(l.X)
+		}
+	}
 	return env
 }
 
@@ -547,7 +597,7 @@ func (e *Exec) enterLoopHeader(fr *Frame, st State, b *ssa.BasicBlock, prev *ssa
 		}
 		return st, false
 	}
-	if lc == nil || len(lc.Invariants) == 0 && lc.Decreases == nil {
+	if lc == nil || len(lc.Invariants) == 0 && lc.Decreases == nil && len(lc.Steps) == 0 {
 		// unrolling
 		limit := e.cfg.unroll
 		if lc != nil && lc.Unroll > 0 {
@@ -605,7 +655,11 @@ func (e *Exec) enterLoopHeader(fr *Frame, st State, b *ssa.BasicBlock, prev *ssa
 		}
 		limit := st.brk
 		st = e.havocAbove(st, "loop")
-		st = e.havocGhost(st)
+		if lc.HasGhost {
+			st = e.havocGhostKinds(st, lc.GhostKinds)
+		} else {
+			st = e.havocGhost(st)
+		}
 		hv := map[*ssa.Phi]Val{}
 		regsAt := map[ssa.Value]Val{}
 		for _, in := range b.Instrs {
@@ -662,8 +716,48 @@ func (e *Exec) enterLoopHeader(fr *Frame, st State, b *ssa.BasicBlock, prev *ssa
 		st = e.useFacts(st, env)
 		st = e.oblige(st, fr.fn, "variant", fmt.Sprintf("loop%d", ord), pos, c.And(c.Sle(c.Const(64, 0), cut.variant), c.Slt(nv, cut.variant)))
 	}
+	for i, sc := range lc.Steps {
+		env.where = sc.Line
+		hs := cut.headState
+		env.prev = &hs
+		g := env.evalBool(sc.X)
+		st = e.useFacts(st, env)
+		lab := sc.Label
+		if lab == "" {
+			lab = fmt.Sprintf("s%d", i)
+		}
+		st = e.oblige(st, fr.fn, "loop.step", fmt.Sprintf("loop%d.%s", ord, lab), pos, g)
+	}
+	if lc.HasGhost {
+		// ghost variables of kinds the loop does not declare must be what they were at the head
+		want := map[string]bool{}
+		for _, k := range lc.GhostKinds {
+			want[k] = true
+		}
+		if want["nsend"] {
+			want["nsocksend"] = true
+		}
+		seen := map[string]bool{}
+		for g := st.ghost; g != nil && g != cut.headState.ghost; g = g.prev {
+			if seen[g.name] {
+				continue
+			}
+			seen[g.name] = true
+			if want[ghostKind(g.name)] || e.ghostOfFresh(g.name) {
+				continue
+			}
+			hv := e.ghost(cut.headState, g.name, g.val.S)
+			st = e.oblige(st, fr.fn, "loop.ghost", fmt.Sprintf("loop%d.%s", ord, ghostKind(g.name)), pos, c.Eq(g.val, hv))
+		}
+	}
 	// frame of the loop body
-	henv := e.loopEnv(fr, cut.headState, b, nil)
+	headPhis := map[*ssa.Phi]Val{}
+	for k, v := range cut.regsAt {
+		if p, ok := k.(*ssa.Phi); ok {
+			headPhis[p] = v
+		}
+	}
+	henv := e.loopEnv(fr, cut.headState, b, headPhis)
 	var as []Expr
 	if lc.HasAssigns {
 		as = lc.Assigns
